@@ -441,7 +441,9 @@ class PopulationBalanceModel:
                 change = True
                 newIndices = None
             elif checkDissolution and self.PSDbounds[-1] > 10*self.PSDbounds[0]:
-                if any(self.PSD > 1) and np.amax(self.PSDsize[self.PSD > 1]) < self.PSDsize[int(self.minBins/2)]:
+                #Compare indices rather than radii (same condition since PSDsize is increasing),
+                #   PSDsize[minBins/2] does not exist if there are fewer than minBins/2 size classes
+                if any(self.PSD > 1) and np.amax(np.nonzero(self.PSD > 1)[0]) < int(self.minBins/2):
                     #print('splitting bins')
                     self.changeSizeClasses(self.PSDbounds[0], np.amax(self.PSDbounds[1:][self.PSD > 1]), self.maxBins)
                     change = True
